@@ -117,7 +117,9 @@ func (wal *BaseWAL) OnStart() error {
 	size, err := wal.group.Head.Size()
 	if err != nil {
 		return err
-	} else if size == 0 {
+	} else if size == 0 && wal.group.MaxIndex() == 0 {
+		// a new log (no head content and no rotated file): an empty head behind rotated files is a log
+		// that stopped right after a rotation, and a second #ENDHEIGHT 0 would hide it from the replay
 		if err := wal.WriteSync(EndHeightMessage{0}); err != nil {
 			return err
 		}
